@@ -112,6 +112,14 @@ func rewriteYields(fset *token.FileSet, f *ast.File, info *types.Info, site stri
 						stats["yield_close"]++
 						continue
 					}
+					if sel, ok := c.Fun.(*ast.SelectorExpr); ok && sel.Sel.Name == "Sleep" {
+						if pk, ok := sel.X.(*ast.Ident); ok && pk.Name == "time" {
+							out = append(out, yieldStmt(s.Pos()), s, yieldStmt(s.Pos()))
+							n++
+							stats["yield_sleep"]++
+							continue
+						}
+					}
 					if id, ok := c.Fun.(*ast.Ident); ok && id.Name == "delete" && len(c.Args) == 2 {
 						out = append(out, &ast.ExprStmt{X: call("MapWrite", siteAt(s.Pos()))}, s)
 						n++
@@ -176,6 +184,24 @@ func rewriteYields(fset *token.FileSet, f *ast.File, info *types.Info, site stri
 		return out
 	}
 
+	// identifiers drawn from crypto/rand become a deterministic sequence under the scheduler (they key maps whose
+	// iteration order is seeded)
+	ast.Inspect(f, func(node ast.Node) bool {
+		kv, ok := node.(*ast.KeyValueExpr)
+		if !ok {
+			return true
+		}
+		if c, ok := kv.Value.(*ast.CallExpr); ok && len(c.Args) == 0 {
+			if sel, ok := c.Fun.(*ast.SelectorExpr); ok && sel.Sel.Name == "NewID" {
+				if pk, ok := sel.X.(*ast.Ident); ok && pk.Name == "rpc" {
+					kv.Value = call("ID", c)
+					n++
+					stats["rpc_ids"]++
+				}
+			}
+		}
+		return true
+	})
 	ast.Inspect(f, func(node ast.Node) bool {
 		switch x := node.(type) {
 		case *ast.BlockStmt:
@@ -193,6 +219,128 @@ func rewriteYields(fset *token.FileSet, f *ast.File, info *types.Info, site stri
 					stats["yield_range_chan"]++
 				}
 			}
+		}
+		return true
+	})
+	n += rewriteSelects(fset, f, site, stats)
+	return n
+}
+
+// rewriteSelects turns every (unlabelled) select statement into a simrt.Select call followed by a switch over the
+// chosen clause, so that the choice among several ready cases is the scheduler's and not the runtime's:
+//
+//	select { case v, ok := <-a: A; case b <- x: B; default: D }
+//	->
+//	{ c0 := a; c1 := b; sel, rv, ok_ := simrt.Select(site, true, simrt.RecvCase(c0), simrt.SendCase(c1, x))
+//	  switch sel { case 0: v, ok := simrt.RecvVal(c0, rv), ok_; A; case 1: B; case 2: D } }
+//
+// break inside a clause leaves the switch exactly as it left the select; no loop is introduced.
+func rewriteSelects(fset *token.FileSet, f *ast.File, site string, stats map[string]int) int {
+	n := 0
+	ctr := 0
+	call := func(fn string, args ...ast.Expr) *ast.CallExpr {
+		return &ast.CallExpr{Fun: &ast.SelectorExpr{X: ast.NewIdent("simrt__"), Sel: ast.NewIdent(fn)}, Args: args}
+	}
+	unparen := func(e ast.Expr) ast.Expr {
+		for {
+			p, ok := e.(*ast.ParenExpr)
+			if !ok {
+				return e
+			}
+			e = p.X
+		}
+	}
+	recvOf := func(e ast.Expr) (ast.Expr, bool) {
+		u, ok := unparen(e).(*ast.UnaryExpr)
+		if !ok || u.Op != token.ARROW {
+			return nil, false
+		}
+		return u.X, true
+	}
+	one := func(sel *ast.SelectStmt) ast.Stmt {
+		ctr++
+		id := func(s string) *ast.Ident { return ast.NewIdent(fmt.Sprintf("%s%d__sim", s, ctr)) }
+		var pre []ast.Stmt
+		var cases []ast.Expr
+		var clauses []ast.Stmt
+		var deflt *ast.CommClause
+		k := 0
+		for _, c := range sel.Body.List {
+			cc := c.(*ast.CommClause)
+			if cc.Comm == nil {
+				deflt = cc
+				continue
+			}
+			chName := ast.NewIdent(fmt.Sprintf("selch%d_%d__sim", ctr, k))
+			var head []ast.Stmt
+			switch cm := cc.Comm.(type) {
+			case *ast.SendStmt:
+				pre = append(pre, &ast.AssignStmt{Lhs: []ast.Expr{chName}, Tok: token.DEFINE, Rhs: []ast.Expr{cm.Chan}})
+				cases = append(cases, call("SendCase", chName, cm.Value))
+			case *ast.ExprStmt:
+				ch, ok := recvOf(cm.X)
+				if !ok {
+					return nil
+				}
+				pre = append(pre, &ast.AssignStmt{Lhs: []ast.Expr{chName}, Tok: token.DEFINE, Rhs: []ast.Expr{ch}})
+				cases = append(cases, call("RecvCase", chName))
+			case *ast.AssignStmt:
+				if len(cm.Rhs) != 1 {
+					return nil
+				}
+				ch, ok := recvOf(cm.Rhs[0])
+				if !ok {
+					return nil
+				}
+				pre = append(pre, &ast.AssignStmt{Lhs: []ast.Expr{chName}, Tok: token.DEFINE, Rhs: []ast.Expr{ch}})
+				cases = append(cases, call("RecvCase", chName))
+				rhs := []ast.Expr{call("RecvVal", chName, id("selrv"))}
+				if len(cm.Lhs) == 2 {
+					rhs = append(rhs, id("selok"))
+				}
+				head = append(head, &ast.AssignStmt{Lhs: cm.Lhs, Tok: cm.Tok, Rhs: rhs})
+			default:
+				return nil
+			}
+			clauses = append(clauses, &ast.CaseClause{List: []ast.Expr{&ast.BasicLit{Kind: token.INT, Value: strconv.Itoa(k)}}, Body: append(head, cc.Body...)})
+			k++
+		}
+		hasDefault := "false"
+		if deflt != nil {
+			hasDefault = "true"
+			clauses = append(clauses, &ast.CaseClause{List: []ast.Expr{&ast.BasicLit{Kind: token.INT, Value: strconv.Itoa(k)}}, Body: deflt.Body})
+		}
+		siteLit := &ast.BasicLit{Kind: token.STRING, Value: strconv.Quote(fmt.Sprintf("%s:%d", site, fset.Position(sel.Pos()).Line))}
+		args := append([]ast.Expr{siteLit, ast.NewIdent(hasDefault)}, cases...)
+		stmts := append(pre,
+			&ast.AssignStmt{Lhs: []ast.Expr{id("selidx"), id("selrv"), id("selok")}, Tok: token.DEFINE, Rhs: []ast.Expr{call("Select", args...)}},
+			&ast.AssignStmt{Lhs: []ast.Expr{ast.NewIdent("_"), ast.NewIdent("_")}, Tok: token.ASSIGN, Rhs: []ast.Expr{id("selrv"), id("selok")}},
+			&ast.SwitchStmt{Tag: id("selidx"), Body: &ast.BlockStmt{List: clauses}},
+		)
+		return &ast.BlockStmt{List: stmts}
+	}
+	rewrite := func(list []ast.Stmt) []ast.Stmt {
+		for i, st := range list {
+			if sel, ok := st.(*ast.SelectStmt); ok {
+				if r := one(sel); r != nil {
+					list[i] = r
+					n++
+					stats["select_rewritten"]++
+				} else {
+					stats["select_left"]++
+				}
+			}
+		}
+		return list
+	}
+	ast.Inspect(f, func(node ast.Node) bool {
+		switch x := node.(type) {
+		case *ast.BlockStmt:
+			x.List = rewrite(x.List)
+		case *ast.CaseClause:
+			x.Body = rewrite(x.Body)
+		case *ast.CommClause:
+			x.Body = rewrite(x.Body)
 		}
 		return true
 	})
